@@ -81,6 +81,9 @@ func Check(c *Case) (res kit.Result) {
 		if n < 0 || n > maxN {
 			return kit.Result{}
 		}
+		if n+1 > math.MaxInt {
+			continue // not an int on this platform (32-bit builds)
+		}
 		exact := new(big.Rat).SetInt64(n)
 		exact.Mul(exact, giga).Quo(exact, fr) // n * 1e9 / f  nanoseconds
 		_ = fq2.Events(time.Duration(n % 1000000))
@@ -117,6 +120,9 @@ func Check(c *Case) (res kit.Result) {
 		}
 		exact := new(big.Rat).SetInt64(d)
 		exact.Mul(exact, fr).Quo(exact, giga) // f * d / 1e9 events
+		if exact.Cmp(maxIntRat) >= 0 {
+			continue // the count is not an int on this platform (32-bit builds)
+		}
 		_ = fq2.Duration(int(d % 1000))
 		_ = fq2.Events(time.Duration(d % 1000000))
 		e := fq.Events(time.Duration(d))
@@ -250,5 +256,7 @@ func Gen(t *rapid.T) *Case {
 	}
 	return c
 }
+
+var maxIntRat = new(big.Rat).SetInt64(math.MaxInt - 1)
 
 var Oracle = kit.Oracle[Case]{Property: Property, Gen: Gen, Check: Check, FP: FP}
